@@ -225,6 +225,19 @@ def inFragment2B (ordf : List World → List World) (G : MG Name) (ev : Event) :
   consistentB (worldB ev) &&
   (violatesEffectiveness ev || cleanB ordf G (worldB ev) (starOf ev) (removeTautologies ev))
 
+/-- well-formed events (`GoodEv`): a dict whose keys are variables of the graph with consistent subscript sets, values named
+after their variables -/
+def goodEvB (G : MG Name) (ev : Event) : Bool :=
+  decide (ev.keys.Nodup) &&
+  ev.all (fun q => decide (q.2.name = q.1.name) && decide (q.1.star = none) && !q.1.isIv && decide (q.1.name ∈ G.nodes) &&
+    consistentB q.1.ivs)
+
+/-- fragment 2R (`InFragment2R`): a well-formed event (any number of worlds) that violates effectiveness, or whose conjuncts are all
+tautologies, or that line 3 reduces to an event of fragment 2 -/
+def inFragment2RB (ordf : List World → List World) (G : MG Name) (ev : Event) : Bool :=
+  goodEvB G ev &&
+  (violatesEffectiveness ev || (removeTautologies ev).isEmpty || inFragment2B ordf G (removeTautologies ev))
+
 /-- single-world events (`OneWorld`) -/
 def oneWorldB (G : MG Name) (ev : Event) : Bool :=
   decide (ev.keys.Nodup) &&
